@@ -57,10 +57,24 @@ def main(argv):
             rc = 2
     except core.AnalysisError as e:
         print('ANALYSIS-ERROR property=%s %s' % (pid, e))
+        try:
+            # leave no stale evidence behind: record that this run could not decide
+            if not os.environ.get('VERIF_VARIANT'):
+                chk.explanation = (chk.explanation + ' ' if chk.explanation else '') + '[this run ended in ANALYSIS-ERROR: %s]' % str(e)[:400]
+                chk._write_evidence([], [], [], [], ['%s' % e], 0.0)
+        except Exception:
+            pass
         return 2
-    except Exception:
+    except Exception as e:
         traceback.print_exc()
         print('ANALYSIS-ERROR property=%s internal error in checker (traceback above)' % pid)
+        try:
+            if not os.environ.get('VERIF_VARIANT'):
+                chk = core.Check(pid, tier, getattr(mod, 'LEVEL', 'other'))
+                chk.explanation = '[this run ended in ANALYSIS-ERROR: internal error %s]' % repr(e)[:300]
+                chk._write_evidence([], [], [], [], [repr(e)[:300]], 0.0)
+        except Exception:
+            pass
         return 2
     if replay:
         try:
